@@ -1,9 +1,10 @@
-use std::{any::Any, cell::RefCell, rc::Rc};
+use std::{any::Any, cell::RefCell, future::Future, rc::Rc};
 
 use ahash::HashMap;
 use bitvec::vec::BitVec;
 use elsa::FrozenMap;
 use event_listener::Event;
+use futures::{FutureExt, StreamExt, stream::FuturesUnordered};
 
 use crate::{
     Candidates, Dependencies, DependencyProvider, HintDependenciesAvailable, NameId, Requirement,
@@ -29,6 +30,34 @@ impl<K: Eq + std::hash::Hash> Drop for InFlightGuard<'_, K> {
             notifier.notify(usize::MAX);
         }
     }
+}
+
+/// Resolves all the given futures concurrently, like
+/// [`futures::future::try_join_all`], but returns the first error as soon as
+/// one of the futures produces it, however many futures there are.
+/// `try_join_all` only does so for a small number of futures: from 31 futures
+/// on it hands out results in order, so an error (for example a cancellation
+/// that one of the futures observed) is held back until all earlier futures
+/// have completed, while other tasks keep running.
+pub(crate) async fn try_join_all_fail_fast<I, F, T, E>(futures: I) -> Result<Vec<T>, E>
+where
+    I: IntoIterator<Item = F>,
+    F: Future<Output = Result<T, E>>,
+{
+    let mut pending: FuturesUnordered<_> = futures
+        .into_iter()
+        .enumerate()
+        .map(|(index, future)| future.map(move |result| (index, result)))
+        .collect();
+    let mut results = Vec::new();
+    results.resize_with(pending.len(), || None);
+    while let Some((index, result)) = pending.next().await {
+        results[index] = Some(result?);
+    }
+    Ok(results
+        .into_iter()
+        .map(|result| result.expect("every future has completed"))
+        .collect())
 }
 
 /// Keeps a cache of previously computed and/or requested information about
@@ -292,7 +321,7 @@ impl<D: DependencyProvider> SolverCache<D> {
                 match self.requirement_to_sorted_candidates.get(&requirement) {
                     Some(candidates) => Ok(candidates),
                     None => {
-                        let sorted_candidates = futures::future::try_join_all(
+                        let sorted_candidates = try_join_all_fail_fast(
                             self.provider()
                                 .version_sets_in_union(version_set_union_id)
                                 .map(|version_set_id| {
